@@ -189,3 +189,23 @@ package replicator
 //@   requires r.queue != nil && r.tasks != nil && r.sem != nil && r.emitters.evtLoadEnd != nil && r.logger != nil
 //@   requires len(deref(r.queue)) > 0 && (forall j Int :: 0 <= j && j < len(deref(r.queue)) ==> deref(r.queue)[j] != nil)
 //@   assert @ before call r.processEntryDone#1: fetched == (lastItemsErr(r) == nil) && e != nil
+
+// ---- C04 C10 C11: one fetched hash = one buffered log, fetched by content address for this database ----
+//@ spec func stAC(s Iface) Iface
+//@ extern (berty.tech/go-orbit-db/stores/replicator.storeInterface).AccessController as (s).AccessController() (a)
+//@   ensures a == stAC(s)
+//@   modifies nothing
+//@ noeffect (berty.tech/go-orbit-db/stores/replicator.storeInterface).IPFS
+//@ noeffect (berty.tech/go-orbit-db/stores/replicator.storeInterface).Identity
+//@ noeffect (berty.tech/go-orbit-db/stores/replicator.storeInterface).SortFn
+//@ noeffect (berty.tech/go-orbit-db/stores/replicator.storeInterface).IO
+//@ func (*replicator).processHash
+//@   props C04 C10 C11
+//@   flag nilcalls
+//@   requires r.store != nil && item != nil
+//@   ghost B0 := r.buffer
+//@   loop 1 invariant r.buffer == old(r.buffer) || len(r.buffer) == len(B0) + 1
+//@   ensures result1 != nil ==> r.buffer == B0
+//@   ensures result1 == nil ==> len(r.buffer) == len(B0) + 1 && (forall j Int :: 0 <= j && j < len(B0) ==> r.buffer[j] == B0[j])
+//@   ensures result1 == nil ==> logLen(r.buffer[len(B0)]) > 0 && prov(r.buffer[len(B0)]) == 1 && logID(r.buffer[len(B0)]) == logID(stLog(r.store)) && acOf(r.buffer[len(B0)]) == stAC(r.store)
+//@   modifies r.buffer
